@@ -17,14 +17,36 @@ func ruleUnbindCloudOrder(c *Ctx, rule string) {
 		return
 	}
 	for _, s := range un {
-		bad, dec := onErrorNever(s, toInstrs(final))
-		if !dec {
-			c.ob(rule, fn, "failed unassign stops", s, false, "error of cloudProviderUnAssignIP is not tested")
-		} else {
-			c.ob(rule, fn, "failed unassign stops", s, bad == nil, "no unbind*Pod reachable from the err!=nil edge of the unassign")
+		host := s.Parent()
+		// the unassign loop may have been extracted into a helper: its failure must surface from the helper, and the call of
+		// the helper in unbind is then the step whose failure must stop and be returned
+		levels := []struct {
+			f    *ssa.Function
+			call ssa.CallInstruction
+		}{{host, s}}
+		if host != fn {
+			for _, site := range staticSites[host] {
+				if site.Parent() == fn {
+					levels = append(levels, struct {
+						f    *ssa.Function
+						call ssa.CallInstruction
+					}{fn, site})
+				}
+			}
+			if len(levels) == 1 {
+				c.undecided(rule, fn, "call of the unassign helper", s, "the helper holding the unassign is not called from unbind")
+			}
 		}
-		ok, _, why := onErrorReturnsErr(fn, s)
-		c.ob(rule, fn, "failed unassign is returned (event is retried)", s, ok, "non-nil error returned from the err!=nil edge "+why)
+		for _, lv := range levels {
+			bad, dec := onErrorNever(lv.call, toInstrs(final))
+			if !dec {
+				c.ob(rule, lv.f, "failed unassign stops", lv.call, false, "error of "+shortCallee(lv.call)+" is not tested")
+			} else {
+				c.ob(rule, lv.f, "failed unassign stops", lv.call, bad == nil, "no unbind*Pod reachable from the err!=nil edge of the unassign")
+			}
+			ok, _, why := onErrorReturnsErr(lv.f, lv.call)
+			c.ob(rule, lv.f, "failed unassign is returned (event is retried)", lv.call, ok, "non-nil error returned from the err!=nil edge "+why)
+		}
 		for _, m := range final {
 			c.ob(rule, fn, "never free first: no unassign after "+shortCallee(m), m, !c.reachAfter(m, nil).has(s), "cloudProviderUnAssignIP not reachable after the freeing call")
 		}
@@ -34,7 +56,7 @@ func ruleUnbindCloudOrder(c *Ctx, rule string) {
 		c.ob(rule, fn, "unassign iterates over all ips stored for the key", s, okL, "ByKeyAndIPRanges(key, nil) precedes the unassign loop")
 		// request fields come from the stored record
 		req := callArgs(s)[0]
-		allInstrs(fn, func(in ssa.Instruction) {
+		allInstrs(host, func(in ssa.Instruction) {
 			st, ok := in.(*ssa.Store)
 			if !ok {
 				return
@@ -59,10 +81,18 @@ func ruleUnbindCloudOrder(c *Ctx, rule string) {
 		})
 	}
 	// with a provider configured, the freeing calls are preceded by the lookup+loop
-	cp := guardEdges(fn, predNeq(func(v ssa.Value) bool { return pathEndsWith(v, "cloudProvider") }, isNilConst))
-	c.ob(rule, fn, "unassign loop is entered whenever a provider is configured", nil, len(cp) == 1 && func() bool {
-		r := reachFromEdge(cp[0], nil)
-		return r.anyCall(un) != nil
+	cp := guardEdgesX(fn, predNeq(func(v ssa.Value) bool { return pathEndsWith(v, "cloudProvider") }, isNilConst))
+	c.ob(rule, fn, "unassign loop is entered whenever a provider is configured", nil, func() bool {
+		for _, e := range cp {
+			// the test that guards the loop (in unbind or in the helper holding the loop), not the one inside the provider wrapper
+			if e.from.Parent() != fn && e.from.Parent() != un[0].Parent() {
+				continue
+			}
+			if reachFromEdge(e, nil).anyCall(un) != nil {
+				return true
+			}
+		}
+		return false
 	}(), "the unassign is reachable from the cloudProvider != nil edge")
 }
 
